@@ -37,6 +37,11 @@ func TestRT(t *testing.T) {
 				// never a violation: the run could not be judged
 				writeInconclusive(inc.Error())
 				t.Logf("%v", inc)
+				if !settle(90 * time.Second) {
+					writeInconclusive("stopped: an abandoned scheduler is still alive, its hook events would pollute further cases")
+					log.close()
+					os.Exit(0)
+				}
 				rt.Skip(inc.Error())
 			}
 			fs := Check(c, h)
